@@ -249,6 +249,17 @@ def simulate_behaviours(module, cfg, workdir, n, name=None, depth=12, seed=0, wo
 VAL_CFG = 'SPECIFICATION Spec\nCHECK_DEADLOCK FALSE\n'
 
 
+def _nonull(x):
+    """JSON null cannot be read by the TLA+ Json module: None becomes the string '<none>' (never equal to a real value)"""
+    if x is None:
+        return '<none>'
+    if isinstance(x, dict):
+        return {k: _nonull(v) for k, v in x.items()}
+    if isinstance(x, (list, tuple)):
+        return [_nonull(v) for v in x]
+    return x
+
+
 def validate_observations(module, observations, workdir, name=None, batches=16, timeout=900, consts=''):
     """code -> spec: split the observations over `batches` TLC processes running <module>.tla (a fold-style
     validator reading IOEnv.OBS_FILE). Returns (n_validated, rejections[(id, clause)], results)."""
@@ -257,6 +268,7 @@ def validate_observations(module, observations, workdir, name=None, batches=16, 
     if not observations:
         return 0, [], []
     batches = max(1, min(batches, (len(observations) + 199) // 200))
+    observations = _nonull(observations)
     chunks = [observations[i::batches] for i in range(batches)]
     jobs = []
     for k, ch in enumerate(chunks):
